@@ -15,11 +15,10 @@ import Tmcg.Model.Codec
    * byte strings are `List Nat`; every oracle answer is cut / zero-padded to the length the C++
      code reads and reduced modulo 256 (`fit`), so the model is total for arbitrary oracles;
    * texts are `List Char` with one character per byte;
-   * `mpz_export` of the value 0 writes nothing: `verify` with `s² ≡ 0 (mod m)` (and a root 0 in
-     `decrypt`) then reads uninitialised heap memory.  The model refuses these inputs;
-   * `mpz_export(yy, &cnt, -1, size, 1, 0, x)` with `x ≥ 256^size` writes a second word behind
-     the first one (finding F5 for moduli above 8192 bits); the bytes the code then reads are
-     the low `size` bytes, i.e. `x mod 256^size`: this is what `beBytes size x` returns;
+   * since the repair of the truncated-export findings (F5 and the high-bits findings, /repo commit d8d330b) `verify` refuses `s² mod m` and
+     `decrypt` skips a root when the value is zero or has more than `8·size` bits, so
+     `mpz_export(yy, &cnt, -1, size, 1, 0, x)` always writes exactly one word of `size` bytes:
+     `beBytes size x` (the big-endian bytes of `x < 256^size`);
    * `mpz_probab_prime_p` is an oracle `isPrime`; the do-while loops of `check` that draw the
      common random numbers from `g` are bounded by a fuel (exhaustion = `Err.oob`);
    * an exhausted list of drawn candidates is reported as `Err.oob`.
@@ -450,7 +449,8 @@ def verify (O : Oracles) (m : Int) (ownSig : Text) (data : Bytes) (s : Text) : B
     else if mnsize ≤ mdsize + K0 then false
     else
       let foo := (v * v % m).toNat
-      if foo = 0 then false
+      -- "the padded value consists of exactly mnsize octets"
+      if foo = 0 ∨ bitlen (foo : Int) > mnsize * 8 then false
       else padOk O mnsize data foo
 
 /-! ### SAEP encryption -/
@@ -481,10 +481,11 @@ def encrypt (O : Oracles) (m : Int) (ownSig : Text) (value r : Bytes) : Except E
 def saepOpen (O : Oracles) (s1 : Nat) (root : Int) : Option Bytes :=
   let s2 := 2 * S0
   let s := s1 + s2
+  -- "the encoded value consists of exactly rabin_s octets"
   if root = 0 then none
-  else if ¬ (bitlen root / 8 ≤ s) then none
+  else if ¬ (bitlen root ≤ s * 8) then none
   else
-    let yy := beBytes s root.toNat
+    let yy := beBytes s root.natAbs
     let mt := yy.take s2
     let r := yy.drop s2
     let g12 := fit s2 (O.g r s2)
